@@ -155,3 +155,97 @@ theorem deliver_cases {B R : Type} (conv : B → Conv (WireList R)) (eqv : Optio
     cases he : eqv v h.last <;> simp [he]
 
 end Sentinel.Datasource
+
+/-! ## history-level machinery (proof depth): file phases, handler histories with Base add/remove -/
+namespace Sentinel.Datasource
+
+/-- the part of the file source's state that depends on the **history alone** (never on contents, converters or
+    rules): `(closed, rewatching)` -/
+def phStep {B : Type} (p : Bool × Bool) : FileEv B → Bool × Bool
+  | .write _ => p
+  | .proc => p
+  | .remove => if p.1 || p.2 then p else (true, p.2)
+  | .renameAway => if p.1 || p.2 then p else (p.1, true)
+  | .recreate _ => if p.1 then p else if p.2 then (p.1, false) else p
+  | .giveUp => if p.2 then (true, false) else p
+  | .replaceOver _ => if p.1 then p else if p.2 then (p.1, false) else (true, p.2)
+
+def phaseOf {B : Type} (evs : List (FileEv B)) : Bool × Bool := evs.foldl phStep (false, false)
+
+/-- **The region** of the known finding `file-replace-over-closes-source` together with the by-design closings, defined on
+    the event history alone: the histories after which nobody watches the path any more — a `remove` or a rename-over
+    while the file is being watched, or the re-watch retries running out (`giveUp`) -/
+def ClosingHistory {B : Type} (evs : List (FileEv B)) : Prop := (phaseOf evs).1 = true
+
+theorem phStep_step {B R : Type} (conv : B → Conv (WireList R)) (eqv : Option (WireList R) → Option (WireList R) → Bool)
+    (mo : Module R) (empty : B) (s : FileSrc B R) (e : FileEv B) :
+    ((FileSrc.step conv eqv mo empty s e).closed, (FileSrc.step conv eqv mo empty s e).rewatching) =
+      phStep (s.closed, s.rewatching) e := by
+  cases e <;> cases hc : s.closed <;> cases hr : s.rewatching <;> cases hct : s.content <;>
+    simp [FileSrc.step, phStep, hc, hr, hct]
+
+theorem phase_run {B R : Type} (conv : B → Conv (WireList R)) (eqv : Option (WireList R) → Option (WireList R) → Bool)
+    (mo : Module R) (empty : B) (evs : List (FileEv B)) : ∀ s : FileSrc B R,
+    ((FileSrc.run conv eqv mo empty s evs).closed, (FileSrc.run conv eqv mo empty s evs).rewatching) =
+      evs.foldl phStep (s.closed, s.rewatching) := by
+  induction evs with
+  | nil => intro s; rfl
+  | cons e es ih =>
+    intro s
+    have := ih (FileSrc.step conv eqv mo empty s e)
+    rw [phStep_step] at this
+    simpa [FileSrc.run] using this
+
+/-- one operation on a module's handler as the round-5 op language has them: a delivery (the converter's result for the
+    payload is carried by the op, so every byte string and every `ds.mode` wrapper is covered), directly or through the
+    `datasource.Base`; `AddPropertyHandler`; `RemovePropertyHandler` -/
+inductive HOp (R : Type) where
+  | deliver (c : Conv (WireList R)) (viaBase : Bool)
+  | add
+  | remove
+
+structure HSt (R : Type) where
+  hm : Handler (WireList R) × Mgr R := ({}, {})
+  attached : Bool := true
+
+/-- the step the driver performs for `ds.handle` / `ds.deliver` / `base.add` / `base.remove`, with what `Handle` returned -/
+def hstep {R : Type} (eqv : Option (WireList R) → Option (WireList R) → Bool) (mo : Module R) (s : HSt R) :
+    HOp R → HSt R × Option (Outcome Ret)
+  | .deliver c false => let r := deliver (fun (_ : Unit) => c) eqv mo s.hm (); ({ s with hm := r.1 }, some r.2)
+  | .deliver c true =>
+    if s.attached then
+      let r := baseDeliver (fun (_ : Unit) => c) eqv mo [s.hm] ()
+      ({ s with hm := r.1.headD s.hm }, some r.2)
+    else (s, some (.ret .nil))                       -- a Base without handlers: nothing is delivered
+  | .add => ({ s with attached := true }, none)
+  | .remove => ({ s with attached := false }, none)
+
+def hrun {R : Type} (eqv : Option (WireList R) → Option (WireList R) → Bool) (mo : Module R) (s : HSt R)
+    (ops : List (HOp R)) : HSt R := ops.foldl (fun s o => (hstep eqv mo s o).1) s
+
+/-- everything observable along a history: per op what `Handle` returned (if it was a delivery) and the rules in force after it -/
+def hobs {R : Type} (eqv : Option (WireList R) → Option (WireList R) → Bool) (mo : Module R) :
+    HSt R → List (HOp R) → List (Option (Outcome Ret) × List R)
+  | _, [] => []
+  | s, o :: os => ((hstep eqv mo s o).2, (hstep eqv mo s o).1.hm.2.enforced) :: hobs eqv mo (hstep eqv mo s o).1 os
+
+/-- does the delivery reach the handler (directly, or through a Base on which the handler is registered) -/
+def reaches {R : Type} (attached : Bool) : HOp R → Bool
+  | .deliver _ viaBase => !viaBase || attached
+  | _ => false
+
+/-- the value a converter result contributes: its own if it accepted the payload, else the previous one -/
+def accVal {D : Type} (c : Conv D) (la : Option D) : Option D :=
+  match c with
+  | .ok v => v
+  | _ => la
+
+/-- the property value of the last delivery that reached the handler and that the converter accepted (`none` at the start) -/
+def lastAccepted {R : Type} : Bool → Option (WireList R) → List (HOp R) → Option (WireList R)
+  | _, la, [] => la
+  | att, la, .deliver c viaBase :: os =>
+    lastAccepted att (if !viaBase || att then accVal c la else la) os
+  | _, la, .add :: os => lastAccepted true la os
+  | _, la, .remove :: os => lastAccepted false la os
+
+end Sentinel.Datasource
